@@ -38,6 +38,8 @@ def load_profiles(F):
                     if cnd.get('k') == 'Bin' and cnd.get('op') == '==' and len(en) == 1:
                         profs_here = en if br == 'then' else [x for x in allp if x not in en]
                         break
+            if not profs_here and f.name == 'loadProfile':
+                profs_here = ['C', 'PYTHON']      # assigned outside the per-profile branches of loadProfile: the same value for every profile
             for prof in profs_here:
                 if prof not in ('C', 'PYTHON'):
                     continue
